@@ -86,12 +86,21 @@ def gen_case(seed, i):
         names.append(r.choice(["len", "zz", "zz.ua", "len.ua"]))
     r.shuffle(names)
     shapes = ["%s", "%s + 1", "f(%s)", "[%s for _ in ()]", "(lambda: %s)", "%s[0]", "x = %s", "%s = 1", "del %s",
-              "def g():\n    return %s", "class K:\n    y = %s", "import ta.ua\n%s", "%s.method()"]
+              "def g():\n    return %s", "class K:\n    y = %s", "import ta.ua\n%s", "%s.method()",
+              # constructs outside the finder's claimed domain, here purely for the frame oracle: analysing them
+              # must not touch the namespaces or the objects in them
+              "def g():\n    global ta\n    ta = 1\n%s", "def g():\n    global zq_, tb\n    zq_ = %s", "global tc\n%s",
+              "def o():\n    v = 0\n    def i():\n        nonlocal v\n        v = %s\n    return i",
+              "x = 1\ndel x\n%s", "del %s", "match %s:\n    case ta.ua:\n        pass\n    case _:\n        pass",
+              "match 0:\n    case %s() as m:\n        pass", "async def c():\n    await %s", "async def c(p=%s):\n    pass",
+              "if (y := %s):\n    pass", "with %s as w:\n    pass", "@%s\ndef f():\n    pass", "x = f'{%s!r}'",
+              "import ta.ua as al\n%s", "from ta import ua\n%s", "try:\n    %s\nexcept tb.ub as e:\n    pass",
+              "for ta.ua in ():\n    pass\n%s", "lambda q=%s: q", "class K(%s):\n    def m(self, p=tb, *a: tc) -> ta:\n        global tb"]
     codes = []
     for _ in range(r.randint(1, 3)):
         picks = [r.choice(names) for _ in range(r.randint(1, 3))]
         sh = r.choice(shapes)
-        if sh in ("%s = 1", "del %s", "x = %s") or "\n" in sh or "import" in sh:
+        if sh in ("%s = 1", "del %s", "x = %s") or "\n" in sh or "import" in sh or not sh.startswith("%s"):
             codes.append(sh % picks[0])
         else:
             codes.append(" , ".join(r.choice(shapes[:6] + ["%s.method()"]) % p for p in picks))
